@@ -28,15 +28,18 @@ def cname(n: str) -> str:
 
 # attribute access on typed values -> Coq accessor
 ATTR = {
-    ('exon', 'start'): 'x_start', ('exon', 'end'): 'x_end', ('exon', 'frame'): 'x_frame', ('exon', 'index'): 'x_index',
-    ('range', 'start'): 'rs', ('range', 'end'): 're',
-    ('strand', 'is_plus'): 'is_plus',
-    ('pt', 'offset'): 'pt_offset', ('pt', 'span'): 'pt_span',
-    ('cds', 'start'): 'c_start', ('cds', 'end'): 'c_end',
+    ('exon', 'start'): ('x_start', 'int'), ('exon', 'end'): ('x_end', 'int'), ('exon', 'frame'): ('x_frame', 'int'), ('exon', 'index'): ('x_index', 'int'),
+    ('range', 'start'): ('rs', 'int'), ('range', 'end'): ('re', 'int'),
+    ('strand', 'is_plus'): ('is_plus', 'bool'),
+    ('pt', 'offset'): ('pt_offset', 'int'), ('pt', 'span'): ('pt_span', 'int'),
+    ('cds', 'start'): ('c_start', 'int'), ('cds', 'end'): ('c_end', 'int'),
+    ('tcfg', 'ref'): ('t_ref', 'range'), ('tcfg', 'region_2'): ('t_r2', 'range'),
+    ('tcfg', 'region_1_length'): ('t_e1', 'int'), ('tcfg', 'region_3_length'): ('t_e3', 'int'),
 }
 # python annotation -> model type tag
-ANNOT = {'int': 'int', 'bool': 'bool', 'Strand': 'strand', 'Exon': 'exon', 'UIntRange': 'range', 'IntPatternBuilder': 'pt', 'CdsSeq': 'cds'}
-COQ_TYPE = {'int': 'Z', 'bool': 'bool', 'strand': 'strand', 'exon': 'exon', 'range': 'range', 'pt': 'pt', 'cds': 'cds_seq'}
+ANNOT = {'int': 'int', 'bool': 'bool', 'Strand': 'strand', 'Exon': 'exon', 'UIntRange': 'range', 'IntPatternBuilder': 'pt', 'CdsSeq': 'cds',
+         'TargetonConfig': 'tcfg'}
+COQ_TYPE = {'int': 'Z', 'bool': 'bool', 'strand': 'strand', 'exon': 'exon', 'range': 'range', 'pt': 'pt', 'cds': 'cds_seq', 'tcfg': 'tcfg', 'unit': 'unit'}
 ERR = {'ValueError': 'ValueError', 'AssertionError': 'AssertionError'}
 
 
@@ -52,6 +55,7 @@ class Translator:
         self.fresh = 0
         self.wrap_some = False
         self.cur_self = None
+        self.procedure = False
 
     # ------------------------------------------------------------ expressions
     def tmp(self):
@@ -89,6 +93,8 @@ class Translator:
             return f'({a} {ops[type(e.op)]} {b})', 'int'
         if isinstance(e, ast.BoolOp):
             vals = [self.expr(x, env, binds) for x in e.values]
+            if isinstance(e.op, ast.Or) and len(vals) == 2 and vals[0][1] == 'option:range' and vals[1][1] == 'range':
+                return f'(match {vals[0][0]} with Some _r => _r | None => {vals[1][0]} end)', 'range'     # `x or default` on an optional range
             if any(t != 'bool' for _, t in vals):
                 raise TransError('boolean operator on non-booleans')
             op = ' && ' if isinstance(e.op, ast.And) else ' || '
@@ -140,8 +146,8 @@ class Translator:
             v, t = self.expr(e.value, env, binds)
             key = (t, e.attr)
             if key in ATTR:
-                acc = ATTR[key]
-                return f'({acc} {v})', ('bool' if e.attr == 'is_plus' else 'int')
+                acc, ty = ATTR[key]
+                return f'({acc} {v})', ty
             prop = self.fns.get(f'{t}.{e.attr}')
             if prop is not None:
                 x = self.tmp()
@@ -210,6 +216,8 @@ class Translator:
         """Translate a statement list that ends in return / raise on every path -> coq term of type result T, and T."""
         stmts = [s for s in stmts if not self.is_docstring(s)]
         if not stmts:
+            if self.procedure:
+                return 'Ok tt', 'unit'
             raise TransError('a path without return')
         st, rest = stmts[0], stmts[1:]
         if isinstance(st, ast.Return):
@@ -313,6 +321,7 @@ class Translator:
                 raise TransError(f'{key}: parameter type {ann}')
             params.append((a.arg, ANNOT[ann]))
         env = {n: (cname(n), t) for n, t in params}
+        self.procedure = node.returns is not None and ast.unparse(node.returns) == 'None'
         body, ret = self.block(node.body, env)
         if ret is None:
             raise TransError(f'{key}: no returning path')
